@@ -11,8 +11,12 @@
 #include "logics/ArithLogic.h"
 namespace stu {
 using namespace opensmt;
-enum Kind : uint8_t { K_VAR = 0, K_CONST = 1, K_PLUS = 2, K_TIMES = 3, K_LEQ = 4, K_OTHER = 5 };
-constexpr int MAXN = 10;
+enum Kind : uint8_t { K_VAR = 0, K_CONST = 1, K_PLUS = 2, K_TIMES = 3, K_LEQ = 4, K_OTHER = 5,
+                      K_AND = 6, K_OR = 7, K_NOT = 8, K_EQ = 9, K_DISTINCT = 10, K_DIV = 11, K_MOD = 12, K_BVAR = 13 };   // 6..13: used by stu_val.h
+#ifndef STU_MAXN
+#define STU_MAXN 10
+#endif
+constexpr int MAXN = STU_MAXN;
 // symbol numbering: operators get fixed symbols, every variable / constant node its own symbol
 constexpr uint32_t SYM_PLUS = 1, SYM_TIMES = 2, SYM_LEQ = 3, SYM_OTHER = 4, SYM_VAR0 = 16, SYM_CONST0 = 32;
 struct Node { Kind kind; uint8_t nargs; Pterm * pt; FastRational * num; int32_t cval; };
